@@ -222,6 +222,8 @@ class PipeOracle:
         op = n["op"]
         X = np.asarray(X, dtype=np.float64)
         if op == "base":
+            if mag and any(m["op"] == "multiply" for m in self.pipe):
+                mag = "coef"  # polynomial products: bound relative to the coefficient norms (see ref.input_abs_fn)
             return ref.evaluate(self.base_scs[n["i"]], self.vals, X, mag=mag)
         if op == "conjugate":
             r = self.value(n["a"], X, mag)
